@@ -338,6 +338,14 @@ def sibling_check(ctx, lib, keys, counts, pollute):
                  'data raised %s: %s' % (type(e).__name__, e))
         return
     mapping = dict(zip(keys, counts))
+    # the library that WAS given the data has it (it was created empty, in memory, and filled by Update)
+    if not pollute:
+        try:
+            a.Estimate(mapping, 'thermochem')
+        except m['GMDE'] as e:
+            ctx.fail('sibling-library:update-gave-no-data', 'GroupLibrary(None).Update(library) and then Estimate(%s): missing data for %s' % (mapping, sorted(str(g) for g in e.groups)))
+        except Exception:
+            pass
     for name, other, lacking in (('created-empty', b, sorted(keys)), ('created-from-the-same-mapping', d, [keys[0]])):
         ctx.count()
         try:
